@@ -6,7 +6,7 @@ From Synnax Require Import Common.Base Aspen.KV.
 Local Open Scope N_scope.
 
 (* which kvStore.apply the tree under test has (see KV.store_put) *)
-Definition fx_tree : bool := true.
+Definition fx_tree : bool := false.
 
 (* ---- what the harness observed after a step ---- *)
 (* engine row: key, has value, value, digest state (0 none, 1 ok, 2 digest of another key),
@@ -59,7 +59,213 @@ Definition model_trace (c : case_t) : list (world * N) :=
 Definition mismatch (c : case_t) : bool :=
   negb (all2 obs_eq (model_trace c) (map snd (c_steps c))).
 
-Definition violates (c : case_t) : bool := false.
+(* ================= the monitor: C06 stated on the implementation's observations =================
+   Only the script and what the harness read back from the real nodes are used (never the model).
+   (1) never older: between two consecutive observations no node's digest of a key moves down in
+       the (version, leaseholder) order, disappears, or changes content at an equal position.
+   (2) the resolution rule: every node's entry of a key is the LWW maximum — higher version, then
+       higher leaseholder — of the operations that node has received so far (injected batches,
+       delivered payloads = the sender's observed infected operations, gossip replies, its own
+       local writes, recovery streams = the peer's observed entries at or above the observed
+       high-water mark); so two nodes that received the same set hold the same entries.
+       Keys whose received set is incoherent (one (version, leaseholder), two contents) are skipped.
+   (3) quiescence: when, at the end of the script, no node holds an infected operation, every node
+       holds, for each key, exactly the entry of the node that leads it (the node whose own entry
+       names itself as leaseholder). *)
+Definition lex_lt (v1 : Z) (l1 : N) (v2 : Z) (l2 : N) : bool :=
+  (v1 <? v2)%Z || ((v1 =? v2)%Z && (l1 <? l2)).
+Definition op_lt (a b : op) : bool := lex_lt (o_ver a) (o_lh a) (o_ver b) (o_lh b).
+
+Definition find_node (o : obs) (n : N) : option rnode :=
+  find (fun r => rn_key r =? n) (ob_nodes o).
+Definition obs_store (o : obs) (n : N) : list op :=
+  match find_node o n with Some r => rn_store r | None => [] end.
+Definition op_of_row (r : reng) : op := Op (re_k r) (re_ver r) (re_lh r) (re_del r) (if re_del r then 0 else re_v r).
+Definition obs_eng_ops (o : obs) (n : N) : list op :=
+  match find_node o n with
+  | Some r => map op_of_row (filter (fun x => re_hasd x =? 1) (rn_eng r))
+  | None => []
+  end.
+Definition obs_hw (o : obs) (n : N) : Z :=
+  fold_left (fun acc x => Z.max acc (o_ver x)) (obs_eng_ops o n) 0%Z.
+Definition obs_ctr (o : obs) (n : N) : Z :=
+  match find_node o n with Some r => rn_ctr r | None => 0%Z end.
+Definition is_node (o : obs) (n : N) : bool := bool_decide (is_Some (find_node o n)).
+
+(* (1) *)
+Definition row_ok_after (nxt : list reng) (r : reng) : bool :=
+  if negb (re_hasd r =? 1) then true else
+  match find (fun x => re_k x =? re_k r) nxt with
+  | None => false
+  | Some x =>
+      (re_hasd x =? 1) &&
+      (lex_lt (re_ver r) (re_lh r) (re_ver x) (re_lh x) ||
+       ((re_ver r =? re_ver x)%Z && (re_lh r =? re_lh x) && bool_decide (x = r)))
+  end.
+(* offending (old row, new row) pairs; the new row is the old one when the key vanished *)
+Definition regress_pairs (po no : obs) : list (reng * reng) :=
+  flat_map (fun r => match find_node no (rn_key r) with
+                     | Some r' => map (fun x => (x, default x (find (fun y => re_k y =? re_k x) (rn_eng r'))))
+                                      (filter (fun x => negb (row_ok_after (rn_eng r') x)) (rn_eng r))
+                     | None => map (fun x => (x, x)) (rn_eng r)
+                     end) (ob_nodes po).
+Definition no_regress (po no : obs) : bool := match regress_pairs po no with [] => true | _ => false end.
+
+(* (2) *)
+Record mstate := MS { ms_recv : gmap N (list op); ms_msgs : list (list op); ms_hw : gmap (N * N) Z }.
+Definition ms0 : mstate := MS ∅ [] ∅.
+Definition recv_add (m : mstate) (n : N) (l : list op) : mstate :=
+  MS (<[n := default [] (ms_recv m !! n) ++ l]> (ms_recv m)) (ms_msgs m) (ms_hw m).
+
+Definition mon_begin (m : mstate) (po : obs) (n p : N) : mstate :=
+  if is_node po n && is_node po p && negb (n =? p) then
+    match ms_hw m !! (n, p) with
+    | Some _ => m
+    | None => MS (ms_recv m) (ms_msgs m) (<[(n, p) := obs_hw po n]> (ms_hw m))
+    end
+  else m.
+Definition mon_end (m : mstate) (po : obs) (n p : N) : mstate :=
+  if is_node po n && is_node po p then
+    match ms_hw m !! (n, p) with
+    | None => m
+    | Some h =>
+        let m' := recv_add m n (filter (fun x => (h <=? o_ver x)%Z) (obs_eng_ops po p)) in
+        MS (ms_recv m') (ms_msgs m') (delete (n, p) (ms_hw m'))
+    end
+  else m.
+
+Definition mon_write (m : mstate) (po no : obs) (k : N) (del : bool) (v : N) : mstate :=
+  if negb (ob_rc no =? 0) then m else
+  match filter (fun r => (rn_ctr r =? obs_ctr po (rn_key r) + 1)%Z) (ob_nodes no) with
+  | [r] => recv_add m (rn_key r) [Op k (rn_ctr r) (rn_key r) del (if del then 0 else v)]
+  | _ => m
+  end.
+
+Definition mon_step (m : mstate) (po : obs) (s : step_t) (no : obs) : mstate :=
+  match s with
+  | SWrite _ k v _ => mon_write m po no k false v
+  | SDel _ k => mon_write m po no k true 0
+  | SInject n _ b => if is_node po n then recv_add m n b else m
+  | SSnap n => if is_node po n then MS (ms_recv m) (ms_msgs m ++ [obs_store po n]) (ms_hw m) else m
+  | SDeliver i n =>
+      match ms_msgs m !! i with
+      | Some l => if is_node po n then recv_add m n l else m
+      | None => m
+      end
+  | SRound i j late =>
+      if is_node po i && is_node po j && negb (i =? j) then
+        match obs_store po i with
+        | [] => m
+        | pl => recv_add (recv_add m j pl) i (if late then obs_store no j else obs_store po j)
+        end
+      else m
+  | SRecBegin n p => mon_begin m po n p
+  | SRecEnd n p => mon_end m po n p
+  | SRecover n p => mon_end (mon_begin m po n p) po n p
+  | SRestart n => MS (ms_recv m) (ms_msgs m) (filter (fun kx => negb (kx.1.1 =? n) = true) (ms_hw m))
+  | SFb _ | SFbAll | SSub _ _ _ => m
+  end.
+
+(* Outside the quantifier: an injected operation that names a cluster node as leaseholder with a
+   version that node has not assigned yet (versions are assigned only by the leaseholder). *)
+Definition forged_step (po : obs) (s : step_t) : bool :=
+  match s with
+  | SInject _ _ b => existsb (fun x => is_node po (o_lh x) && (obs_ctr po (o_lh x) <? o_ver x)%Z) b
+  | _ => false
+  end.
+Fixpoint forged (po : obs) (l : list (step_t * obs)) : bool :=
+  match l with
+  | [] => false
+  | (s, no) :: r => forged_step po s || forged no r
+  end.
+
+Definition coherentb (l : list op) : bool :=
+  forallb (fun a => forallb (fun b =>
+     negb ((o_ver a =? o_ver b)%Z && (o_lh a =? o_lh b)) || bool_decide (a = b)) l) l.
+Definition lww_max (l : list op) : option op :=
+  fold_left (fun acc x => match acc with
+                          | None => Some x
+                          | Some a => if op_lt a x then Some x else acc
+                          end) l None.
+
+(* None = fine; Some true = the entry differs from the maximum and both are led by different
+   nodes; Some false = any other difference *)
+Definition key_rule (recv : list op) (eng : list reng) (k : N) : option bool :=
+  let R := filter (fun x => o_key x =? k) recv in
+  if negb (coherentb R) then None else
+  match lww_max R, find (fun x => re_k x =? k) eng with
+  | None, None => None
+  | Some a, Some r => if bool_decide (r = reng_of a) then None else Some (negb (re_lh r =? o_lh a))
+  | _, _ => Some false
+  end.
+Definition node_rule (m : mstate) (r : rnode) : list bool :=
+  let recv := default [] (ms_recv m !! rn_key r) in
+  omap (key_rule recv (rn_eng r)) (map o_key recv ++ map re_k (rn_eng r)).
+Definition rule_bad (m : mstate) (o : obs) : list bool := flat_map (node_rule m) (ob_nodes o).
+Definition rule_ok (m : mstate) (o : obs) : bool := match rule_bad m o with [] => true | _ => false end.
+
+(* (3) *)
+Definition quiescent (o : obs) : bool :=
+  forallb (fun r => match rn_store r with [] => true | _ => false end) (ob_nodes o).
+Definition leader_rows (o : obs) : list reng :=
+  flat_map (fun r => filter (fun x => (re_hasd x =? 1) && (re_lh x =? rn_key r)) (rn_eng r)) (ob_nodes o).
+Definition converged (o : obs) : bool :=
+  forallb (fun lead => forallb (fun r =>
+     match find (fun x => re_k x =? re_k lead) (rn_eng r) with
+     | Some x => bool_decide (x = lead)
+     | None => false
+     end) (ob_nodes o)) (leader_rows o).
+Definition quiescence_ok (o : obs) : bool := if quiescent o then converged o else true.
+
+Definition obs0 (ns : list N) : obs := Obs 0 (map (fun n => RNode n 0 [] []) ns) [].
+
+(* Violation codes. The first violation of (1)/(2) ends the run (what follows is a consequence).
+   1x = an entry was replaced by an older one, 2x = an entry is not the LWW maximum of what the node
+   received, with x = 1: at a DB.Set/Delete step and the two entries are led by different nodes (the
+        leaseholder path applies without consulting the digest),
+        x = 2: at a recovery apply step (recovery applies without consulting the digest),
+        x = 0: anything else;
+   3x = quiesced without convergence, x = 1: a restart happened (the gossip store is in memory
+        only), 2: a recovery happened, 3: three or more nodes (SIR stops after T+1 redundant
+        feedbacks from any peers), 0: none of these. *)
+Definition is_write (s : step_t) : bool := match s with SWrite _ _ _ _ | SDel _ _ => true | _ => false end.
+Definition is_recapply (s : step_t) : bool := match s with SRecEnd _ _ | SRecover _ _ => true | _ => false end.
+Definition is_restart (s : step_t) : bool := match s with SRestart _ => true | _ => false end.
+
+Definition step_suffix (s : step_t) (other_leader : bool) : N :=
+  if is_recapply s then 2 else if is_write s && other_leader then 1 else 0.
+
+Definition quiescence_code (c_nodes : list N) (steps : list step_t) : N :=
+  if existsb is_restart steps then 31
+  else if existsb is_recapply steps then 32
+  else if (2 <? length c_nodes)%nat then 33 else 30.
+
+Fixpoint mon_run (m : mstate) (po : obs) (l : list (step_t * obs)) : option N :=
+  match l with
+  | [] => None
+  | (s, no) :: rest =>
+      let m' := mon_step m po s no in
+      match regress_pairs po no with
+      | p :: ps => Some (10 + step_suffix s (forallb (fun p => negb (re_lh p.1 =? re_lh p.2)) (p :: ps)))
+      | [] =>
+          match rule_bad m' no with
+          | b :: bs => Some (20 + step_suffix s (forallb id (b :: bs)))
+          | [] => mon_run m' no rest
+          end
+      end
+  end.
+
+Definition last_obs (c : case_t) : obs := default (obs0 (c_nodes c)) (last (map snd (c_steps c))).
+
+Definition violation_kinds (c : case_t) : list N :=
+  if forged (obs0 (c_nodes c)) (c_steps c) then [] else
+  match mon_run ms0 (obs0 (c_nodes c)) (c_steps c) with
+  | Some k => [k]
+  | None => if quiescence_ok (last_obs c) then [] else [quiescence_code (c_nodes c) (map fst (c_steps c))]
+  end.
+
+Definition violates (c : case_t) : bool :=
+  match violation_kinds c with [] => false | _ => true end.
 
 Definition mismatches (cs : list case_t) : list nat := find_idx mismatch cs.
 Definition violations (cs : list case_t) : list nat := find_idx violates cs.
